@@ -32,6 +32,8 @@ type frame struct {
 	havocExceptional bool // havoc for an exceptional edge (stable-on-return ghosts are not stable)
 	inDeferred int // >0 while a deferred call of this frame is being executed
 	curLoopEntryPhis map[*ssa.Phi]Val
+	curIterState *State // while a variant is evaluated: state at the head of the current iteration
+	curIterPhis  map[*ssa.Phi]Val
 	curLoopEntry *State // while a loop invariant is evaluated: state at entry of that loop
 	loopOwnWrites map[string]int // write set of the loop's own (non-call) instructions, set by loopModSet
 	loopCovers map[*loop]*loopCover
